@@ -634,11 +634,15 @@ func (c *Channel) processDeferredQueue(t int64) bool {
 
 	dirty := false
 	for {
+		// the channel's read lock keeps Empty() out while the message is in
+		// neither the deferred set nor the queue: it would survive the empty
+		c.RLock()
 		c.deferredMutex.Lock()
 		item, _ := c.deferredPQ.PeekAndShift(t)
 		c.deferredMutex.Unlock()
 
 		if item == nil {
+			c.RUnlock()
 			goto exit
 		}
 		dirty = true
@@ -646,9 +650,11 @@ func (c *Channel) processDeferredQueue(t int64) bool {
 		msg := item.Value.(*Message)
 		_, err := c.popDeferredMessage(msg.ID)
 		if err != nil {
+			c.RUnlock()
 			goto exit
 		}
 		c.put(msg)
+		c.RUnlock()
 	}
 
 exit:
@@ -698,8 +704,10 @@ func (c *Channel) processInFlightQueue(t int64) bool {
 		if ok {
 			client.TimedOutMessage()
 		}
-		c.RUnlock()
+		// (still under the read lock: between the in-flight set and the queue the
+		// message is in none of the places Empty() resets)
 		c.put(msg)
+		c.RUnlock()
 	}
 
 exit:
